@@ -968,6 +968,7 @@ func (p *pkgCtx) traceMode() {
 		Kind string `json:"kind"`
 		Loc  string `json:"loc"`
 		Func string `json:"func"`
+		Text string `json:"text"`
 	}
 	var sitesOut []siteInfo
 	blockID := map[ast.Node]uint32{}
@@ -986,7 +987,32 @@ func (p *pkgCtx) traceMode() {
 			id ^= uint32(key[i])
 			id *= 16777619
 		}
-		sitesOut = append(sitesOut, siteInfo{id, kind, p.loc(n), p.rep.Package + ":" + fn})
+		txt := ""
+		switch kind {
+		case "shortcircuit", "index", "slicebound":
+			txt = p.text(n)
+		case "then", "else":
+			if is, ok := p.parent[n].(*ast.IfStmt); ok {
+				txt = p.text(is.Cond)
+			}
+		case "for":
+			if fs, ok := p.parent[n].(*ast.ForStmt); ok && fs.Cond != nil {
+				txt = p.text(fs.Cond)
+			}
+		case "range":
+			if rs, ok := p.parent[n].(*ast.RangeStmt); ok {
+				txt = p.text(rs.X)
+			}
+		case "case":
+			if cc, ok := n.(*ast.CaseClause); ok && len(cc.List) > 0 {
+				txt = p.text(cc.List[0])
+			}
+		}
+		txt = strings.Join(strings.Fields(txt), " ")
+		if len(txt) > 90 {
+			txt = txt[:90]
+		}
+		sitesOut = append(sitesOut, siteInfo{id, kind, p.loc(n), p.rep.Package + ":" + fn, txt})
 		blockID[n] = id
 		return fmt.Sprintf("%d", id)
 	}
